@@ -28,24 +28,24 @@ package context
 //@   modifies nothing
 
 //@ func (*DataContext).SetValue
-//@   props C03 C15 C19
+//@   props C03 C15 C19 C02
 //@   entry nolocks
 //@   guard Vars by dc.lockVars
 //@   ghost wrote int = 0
 //@   oncall core.SetSingleValue
-//@     assert [C03] injectedwins: !strContains(variable, ".") && (variable in dc.base) && arg0 == dc.base[variable] && arg2 == newValue
+//@     assert [C03,C02] injectedwins: !strContains(variable, ".") && (variable in dc.base) && arg0 == dc.base[variable] && arg2 == newValue
 //@     after wrote := wrote + 1
 //@   ghost wattr int = 0
 //@   ghost aerr error = nil
 //@   oncall core.SetAttributeValue
-//@     assert [C03] fieldwrite: wattr == 0 && strContains(variable, ".") && arg2 == newValue && ((splitCount(variable, ".") == 2 && arg1 == splitPart(variable, ".", 1) && arg0 == ite(splitPart(variable, ".", 0) in dc.base, dc.base[splitPart(variable, ".", 0)], Vars[splitPart(variable, ".", 0)])) || (splitCount(variable, ".") == 3 && arg1 == splitPart(variable, ".", 2) && arg0 == fieldOf(ite(splitPart(variable, ".", 0) in dc.base, dc.base[splitPart(variable, ".", 0)], Vars[splitPart(variable, ".", 0)]), splitPart(variable, ".", 1))))
+//@     assert [C03,C02] fieldwrite: wattr == 0 && strContains(variable, ".") && arg2 == newValue && ((splitCount(variable, ".") == 2 && arg1 == splitPart(variable, ".", 1) && arg0 == ite(splitPart(variable, ".", 0) in dc.base, dc.base[splitPart(variable, ".", 0)], Vars[splitPart(variable, ".", 0)])) || (splitCount(variable, ".") == 3 && arg1 == splitPart(variable, ".", 2) && arg0 == fieldOf(ite(splitPart(variable, ".", 0) in dc.base, dc.base[splitPart(variable, ".", 0)], Vars[splitPart(variable, ".", 0)]), splitPart(variable, ".", 1))))
 //@     after wattr := wattr + 1
 //@     after aerr := callresult
-//@   ensures [C03] fieldstored: strContains(variable, ".") && (splitCount(variable, ".") == 2 || splitCount(variable, ".") == 3) && ((splitPart(variable, ".", 0) in dc.base) || (Vars != nil && (splitPart(variable, ".", 0) in Vars))) ==> wattr == 1 && result == aerr
-//@   ensures [C03] fieldunknown: strContains(variable, ".") && (splitCount(variable, ".") > 3 || (!(splitPart(variable, ".", 0) in dc.base) && (Vars == nil || !(splitPart(variable, ".", 0) in Vars)))) ==> result != nil && wattr == 0
+//@   ensures [C03,C02] fieldstored: strContains(variable, ".") && (splitCount(variable, ".") == 2 || splitCount(variable, ".") == 3) && ((splitPart(variable, ".", 0) in dc.base) || (Vars != nil && (splitPart(variable, ".", 0) in Vars))) ==> wattr == 1 && result == aerr
+//@   ensures [C03,C02] fieldunknown: strContains(variable, ".") && (splitCount(variable, ".") > 3 || (!(splitPart(variable, ".", 0) in dc.base) && (Vars == nil || !(splitPart(variable, ".", 0) in Vars)))) ==> result != nil && wattr == 0
 //@   ensures [C15] localbound: !strContains(variable, ".") && !old(variable in dc.base) ==> result == nil && (variable in Vars) && Vars[variable] == newValue && wrote == 0
 //@   ensures [C15] otherlocals: !strContains(variable, ".") ==> forall k: string :: k != variable ==> (k in Vars) == old(k in Vars) && Vars[k] == old(Vars[k])
-//@   ensures [C03] nolocalshadow: !strContains(variable, ".") && old(variable in dc.base) ==> wrote == 1 && (variable in Vars) == old(variable in Vars)
+//@   ensures [C03,C02] nolocalshadow: !strContains(variable, ".") && old(variable in dc.base) ==> wrote == 1 && (variable in Vars) == old(variable in Vars)
 //@   modifies frame evalframe
 
 //@ func (*DataContext).Get
@@ -87,7 +87,7 @@ package context
 // coerced to the map's key / element type (core.GetWantedValue); exactly ONE store is made: SetMapIndex on that
 // container for a map, Set on the element at the index for a slice / array; nothing is stored on an error
 //@ func (*DataContext).SetMapVarValue
-//@   props C03 C19
+//@   props C03 C19 C02
 //@   arith int unchecked
 //@   entry nolocks
 //@   guard Vars by dc.lockVars
@@ -101,27 +101,27 @@ package context
 //@   ghost lastval bool = false
 //@   ghost nstore int = 0
 //@   oncall (*DataContext).GetValue
-//@     assert [C03] lookups: recv == dc && arg0 == Vars && ((ng == 0 && arg1 == mapVarName) || (ng == 1 && gerr == nil && arg1 == mapVarVarkey && len(mapVarVarkey) > 0))
+//@     assert [C03,C02] lookups: recv == dc && arg0 == Vars && ((ng == 0 && arg1 == mapVarName) || (ng == 1 && gerr == nil && arg1 == mapVarVarkey && len(mapVarVarkey) > 0))
 //@     after KV := ite(ng == 1, callresult.0, KV)
 //@     after VAL := ite(ng == 0, callresult.0, VAL)
 //@     after gerr := callresult.1
 //@     after ng := ng + 1
 //@   oncall core.GetWantedValue
-//@     assert [C03] coercions: nstore == 0 && ((arg0 == setValue && arg1 == rt_elem(rv_typ(containerOf(VAL)))) || (nw == 0 && rv_kind(containerOf(VAL)) == 21 && arg1 == rt_key(rv_typ(containerOf(VAL))) && ((len(mapVarVarkey) > 0 && arg0 == KV) || (len(mapVarVarkey) == 0 && len(mapVarStrkey) == 0 && rv_kind(arg0) == 6 && rv_int(arg0) == mapVarIntkey))))
+//@     assert [C03,C02] coercions: nstore == 0 && ((arg0 == setValue && arg1 == rt_elem(rv_typ(containerOf(VAL)))) || (nw == 0 && rv_kind(containerOf(VAL)) == 21 && arg1 == rt_key(rv_typ(containerOf(VAL))) && ((len(mapVarVarkey) > 0 && arg0 == KV) || (len(mapVarVarkey) == 0 && len(mapVarStrkey) == 0 && rv_kind(arg0) == 6 && rv_int(arg0) == mapVarIntkey))))
 //@     after lastval := arg0 == setValue && arg1 == rt_elem(rv_typ(containerOf(VAL)))
 //@     after WK := ite(nw == 0, callresult.0, WK)
 //@     after WV := callresult.0
 //@     after nw := nw + 1
 //@   oncall (reflect.Value).SetMapIndex
-//@     assert [C03] mapstore: nstore == 0 && recv == containerOf(VAL) && rv_kind(containerOf(VAL)) == 21 && lastval && arg1 == WV && ((len(mapVarVarkey) > 0 && nw == 2 && arg0 == WK) || (len(mapVarVarkey) == 0 && len(mapVarStrkey) > 0 && nw == 1 && rv_kind(arg0) == 24 && rv_str(arg0) == mapVarStrkey) || (len(mapVarVarkey) == 0 && len(mapVarStrkey) == 0 && nw == 2 && arg0 == WK))
+//@     assert [C03,C02] mapstore: nstore == 0 && recv == containerOf(VAL) && rv_kind(containerOf(VAL)) == 21 && lastval && arg1 == WV && ((len(mapVarVarkey) > 0 && nw == 2 && arg0 == WK) || (len(mapVarVarkey) == 0 && len(mapVarStrkey) > 0 && nw == 1 && rv_kind(arg0) == 24 && rv_str(arg0) == mapVarStrkey) || (len(mapVarVarkey) == 0 && len(mapVarStrkey) == 0 && nw == 2 && arg0 == WK))
 //@     after nstore := nstore + 1
 //@   oncall (reflect.Value).Set
-//@     assert [C03] seqstore: nstore == 0 && (rv_kind(containerOf(VAL)) == 23 || rv_kind(containerOf(VAL)) == 17) && lastval && nw == 1 && arg0 == WV && ((len(mapVarVarkey) > 0 && (iK(rv_kind(KV)) && inK(rv_int(KV), 2) ==> recv == rv_index(containerOf(VAL), rv_int(KV)))) || (len(mapVarVarkey) == 0 && len(mapVarStrkey) == 0 && mapVarIntkey >= 0 && recv == rv_index(containerOf(VAL), mapVarIntkey)))
+//@     assert [C03,C02] seqstore: nstore == 0 && (rv_kind(containerOf(VAL)) == 23 || rv_kind(containerOf(VAL)) == 17) && lastval && nw == 1 && arg0 == WV && ((len(mapVarVarkey) > 0 && (iK(rv_kind(KV)) && inK(rv_int(KV), 2) ==> recv == rv_index(containerOf(VAL), rv_int(KV)))) || (len(mapVarVarkey) == 0 && len(mapVarStrkey) == 0 && mapVarIntkey >= 0 && recv == rv_index(containerOf(VAL), mapVarIntkey)))
 //@     after nstore := nstore + 1
-//@   ensures [C03] stored: result == nil ==> nstore == 1
-//@   ensures [C03] refused: result != nil ==> nstore == 0
-//@   ensures [C03] lookuperr: gerr != nil ==> result != nil
-//@   ensures [C03] accepts: gerr == nil && ((rv_kind(containerOf(VAL)) == 21) || ((rv_kind(containerOf(VAL)) == 23 || rv_kind(containerOf(VAL)) == 17) && (len(mapVarVarkey) > 0 || (len(mapVarStrkey) == 0 && mapVarIntkey >= 0)))) ==> result == nil
+//@   ensures [C03,C02] stored: result == nil ==> nstore == 1
+//@   ensures [C03,C02] refused: result != nil ==> nstore == 0
+//@   ensures [C03,C02] lookuperr: gerr != nil ==> result != nil
+//@   ensures [C03,C02] accepts: gerr == nil && ((rv_kind(containerOf(VAL)) == 21) || ((rv_kind(containerOf(VAL)) == 23 || rv_kind(containerOf(VAL)) == 17) && (len(mapVarVarkey) > 0 || (len(mapVarStrkey) == 0 && mapVarIntkey >= 0)))) ==> result == nil
 //@   nopanic own when !strContains(mapVarName, ".") && !strContains(mapVarVarkey, ".") && len(mapVarVarkey) > 0 && (mapVarName in dc.base) && (mapVarVarkey in dc.base) && (rv_kind(containerOf(dc.base[mapVarName])) == 23 || rv_kind(containerOf(dc.base[mapVarName])) == 17) && iK(rv_kind(dc.base[mapVarVarkey])) && 0 <= rv_int(dc.base[mapVarVarkey]) && rv_int(dc.base[mapVarVarkey]) < rv_len(containerOf(dc.base[mapVarName])) && rv_canset(rv_index(containerOf(dc.base[mapVarName]), rv_int(dc.base[mapVarVarkey]))) && rv_kind(setValue) == rt_kind(rt_elem(rv_typ(containerOf(dc.base[mapVarName]))))
 //@   modifies nothing
 
